@@ -546,6 +546,21 @@ def d5_readset(ctx, obs):
         ctx.check(rule, '%s.py#read-set' % mn, not bad, 'reads no analysis slot', 'reads %s' % sorted({unparse(b) for b in bad}))
 
 
+def d5b_fresh_results(ctx, obs, rule='C03-D5'):
+    """an arithmetic operation returns a new observable: handing back `self` (for `+ 0`, `* 1`, ...) makes the "result" share its error
+    analysis with the operand - it carries errors it never computed, and analysing it overwrites the operand's"""
+    n = 0
+    for q, f in obs.functions():
+        if not q.startswith('Obs.__') or q.split('.')[1] not in ('__add__', '__radd__', '__sub__', '__rsub__', '__mul__', '__rmul__', '__truediv__', '__rtruediv__', '__pow__', '__rpow__', '__neg__', '__abs__'):
+            continue
+        n += 1
+        rs = [s_ for s_ in statements(f) if isinstance(s_, ast.Return) and isinstance(s_.value, ast.Name) and s_.value.id == 'self']
+        ctx.check(rule, 'obs.py:%s#fresh-result' % q, not rs, 'every path returns a newly derived observable',
+                  '%s returns `self` on the path guarded by %s: the result shares value, fluctuations and the stored error analysis with the operand' % (
+                      q, [unparse(t_) for s_ in rs for t_, pol in guards_of(obs, s_, stop=f) if pol]), obs.loc(rs[0]) if rs else None)
+    ctx.floor('arithmetic methods of Obs', n, 10)
+
+
 def d6_bounds(ctx, obs):
     rule = 'C03-D6'
     f = obs.func('Obs.gamma_method')
@@ -563,6 +578,28 @@ def d6_bounds(ctx, obs):
         vtxt = unparse(v)
         okv = (const(v) is not None and const(v) >= 0.5) or (isinstance(v, ast.BinOp) and isinstance(v.op, ast.Add) and const(v.left) == 0.5 and 'eps' in vtxt)
         ctx.check(rule, key, okm and okv, 'entries of tau_W <= 1/2 are raised to >= 1/2 before use', 'clamp is `%s`' % unparse(clamp[0]), obs.loc(clamp[0]))
+    # the error of tau_W: the argument of its square root is |W + 1/2 - tau_W| - without the absolute value it is negative whenever
+    # tau_W(W) > W + 1/2 (few strongly correlated pairs in a gapped chain) and the error becomes NaN
+    jj = sp.Symbol('j', integer=True, positive=True)
+    nsq = 0
+    for s in g.sts:
+        if isinstance(s, ast.Assign) and len(s.targets) == 1 and g.slot_of(s.targets[0].value if isinstance(s.targets[0], ast.Subscript) and not isinstance(s.targets[0].slice, ast.Constant) and g.slot_of(s.targets[0]) is None else s.targets[0]) == 'e_n_dtauint':
+            for c in walk(s.value):
+                if isinstance(c, ast.Call) and (obs.dotted(c.func) or '') == 'numpy.sqrt' and c.args:
+                    nsq += 1
+                    key = 'obs.py:Obs.gamma_method#sign[e_n_dtauint,sqrt]'
+                    try:
+                        e = g.T(c.args[0], jj)
+                    except Unrecognised as ex:
+                        ctx.unrec(rule, key, str(ex), obs.loc(s))
+                        continue
+                    e = e.replace(lambda x: isinstance(x, sp.Abs), lambda x: sp.Dummy('absval', nonnegative=True))
+                    from sympy.core.function import AppliedUndef
+                    e = e.xreplace({a_: sp.Dummy('unsigned_' + str(a_.func), real=True) for a_ in e.atoms(AppliedUndef)})
+                    ok = e.is_nonnegative or sp.simplify(e).is_nonnegative
+                    ctx.check(rule, key, bool(ok), 'the argument of the square root is non-negative for every window', 'the argument %s of the square root has no definite sign: the error of tau_int is NaN '
+                              'where tau_W(W) > W + 1/2' % unparse(c.args[0]), obs.loc(s))
+    ctx.floor('square roots in the error of tau_W', nsq, 1)
     p = sp.Symbol('p', nonnegative=True)
     for s in g.sts:
         if not (isinstance(s, ast.Assign) and len(s.targets) == 1):
@@ -681,6 +718,7 @@ def run(ctx):
     ctx.guarded('C03-D3', 'obs.py:_parse_kwarg', d3_precedence, ctx, obs)
     ctx.guarded('C03-D4', 'obs.py@units', d4_units, ctx, obs)
     ctx.guarded('C03-D5', 'obs.py@read-set', d5_readset, ctx, obs)
+    ctx.guarded('C03-D5', 'obs.py@fresh-results', d5b_fresh_results, ctx, obs)
     ctx.guarded('C03-D6', 'obs.py@bounds', d6_bounds, ctx, obs)
     ctx.rule('C03-D8', 'FFT path = direct path: guards on FFT-computed quantities are inequalities; padding, lag range and pairing of _calc_gamma (shared analysis with C02-D4)')
     ctx.guarded('C03-D8', 'obs.py@fft-guards', d8_fft_guards, ctx, obs)
